@@ -19,7 +19,8 @@ ALWAYS_STANDIN = True
 
 
 def tasks(tier):
-    return [('contracts.c03', 'method_task', ('C09', m, pol)) for m in METHODS for pol in c03.POLICIES]
+    return [('contracts.c03', 'method_task', ('C09', m, pol)) for m in METHODS for pol in c03.POLICIES] + \
+        [('contracts.bulk', 'cull_task', ('C09', pol)) for pol in c03.POLICIES]
 
 
 def meta(results, tier):
